@@ -340,6 +340,20 @@ def run_domain(prop, tier, seed, dom, exe, n, known, shrink_ok, base_answers):
         lines += X.histories(seed + 2000, prop, n // (8 if dom["rel"] else 4), big=True, **hopts)
     answers = run_cases(exe, name, lines, os.path.join(outd, stream + ".cases"))
     examine(res, prop, dom, exe, stream, "hist", lines, answers, orc, known, shrink_ok)
+    if prop == "C03" and dom["rel"]:
+        # decomposition of general linear constraints against established bounds, with a
+        # dense sample of the solutions (domall_extra.lin_samples)
+        ll = X.lin_histories(seed + 33, 220 if tier == "quick" else 3000)
+        la = run_cases(exe, name, ll, os.path.join(outd, stream + "-lin.cases"))
+        ne = [0]
+
+        def lin_orc(l, a):
+            w, nonempty = X.lin_oracle(l, a)
+            return w
+
+        examine(res, prop, dom, exe, stream, "lin", ll, la, lin_orc, known, shrink_ok)
+        st["lin_cases"] = len(ll)
+        st["lin_nonempty_sample_fraction"] = round(sum(1 for l in ll if (X.lin_samples(l) or [[]])[-1]) / float(len(ll)), 3)
     if prop == "C16":
         base_answers[name] = (lines, answers)
         # (iii) normalize()/minimize()/queries injected: sound, and same answers as without
